@@ -221,6 +221,13 @@ func (r *c14Run) finish() {
 	lab.Advance(61 * time.Second)
 	r.drain("the socket read timeout")
 	lab.Advance(6 * time.Second)
+	r.checkEvents()
+	r.l.close()
+}
+
+// checkEvents: one event per connection, with its addresses, whose payload is a prefix of the
+// client's stream that contains at least the first pushed segment.
+func (r *c14Run) checkEvents() {
 	evs := r.l.takeEvents()
 	for _, cn := range r.conns {
 		id := cn.id()
@@ -252,7 +259,6 @@ func (r *c14Run) finish() {
 			}
 		}
 	}
-	r.l.close()
 }
 
 func (r *c14Run) report(name string) {
